@@ -15,7 +15,10 @@ Record oracle_lex_ok (O : oracles) : Prop := {
   (* FormatFloat(f, 'f', 3, 64) for a non-negative frame rate *)
   lex_rate : forall f, 0 <= f -> is_float (fmt_rate O f) = true;
   (* Format("2006-01-02T15:04:05.999Z07:00") for a year 0..9999 and a zone offset in whole minutes *)
-  lex_time : forall t, time_ok t = true -> is_datetime (fmt_time O t) = true
+  lex_time : forall t, time_ok t = true -> is_datetime (fmt_time O t) = true;
+  (* ... on one line (implied by the date-time shape; kept separate to spare the proof a
+     character-by-character inversion of is_datetime) *)
+  lex_time_line : forall t, no_crlf (fmt_time O t) = true
 }.
 
 (* a URI line: no white space, no control characters (RFC 8216 4.1) *)
@@ -25,7 +28,7 @@ Definition is_none {A} (o : option A) : bool := match o with None => true | Some
 
 (* the recorded finding: Marshal prints the BYTERANGE attribute of EXT-X-PART (and of EXT-X-MAP)
    unquoted; the RFC defines a quoted-string. Such values are excluded here and refuted in
-   Proofs/PlaylistStrictMedia.v. *)
+   Proofs/PlaylistStrictExamples.v (c15_grammar_refuted_map_byterange, c15_grammar_refuted_part_byterange in Props/C15.v). *)
 Definition strict_part (p : MediaPart) : bool := is_none (pt_brlen p).
 
 (* IV is typed as a free string: the grammar wants a hexadecimal-sequence *)
